@@ -75,7 +75,10 @@ def shrink_case(suite, case, exe, sig, rounds=6):
             return None
         better = None
         for c2, h in zip(cs, ho):
-            o = suite.oracle(c2, h)
+            try:
+                o = suite.oracle(c2, h)
+            except Exception:
+                o = None
             if o and o[0] == sig and len(c2.meta[meta_key]) < len(best):
                 better = c2
                 break
@@ -267,7 +270,10 @@ def main():
                         st = max(g for g in gs if g <= i)
                         rep_lines = lines[st:i + 1]          # stateful suite: the whole history up to the failing operation
                     else:
-                        rep_lines = shrink_case(s, c, exe, sig) or c.line
+                        try:
+                            rep_lines = shrink_case(s, c, exe, sig) or c.line
+                        except Exception:
+                            rep_lines = c.line
                     violations.append((sig, desc, {"suite": s.name, "cfg": s.cfg, "line": rep_lines, "original_line": c.line if rep_lines != c.line else None,
                                                    "implementation": h, "model": m, "what": desc}))
             try:
